@@ -341,3 +341,53 @@ Proof.
   - intros d. bal_rw. rewrite Hdo. ledger.
   - repeat split; reflexivity.
 Qed.
+
+Lemma stable_deposit_effect c s f a e id amt s' :
+  cfg_ok c -> ProdsExist s ->
+  msg_stable_deposit c s f a e id amt = Ok s' ->
+  exists x0 ep tout, find_sv (svaults s) id = Some x0 /\ get_ep c e = Some ep /\ sv_pair x0 = e /\ sv_app x0 = a /\ 0 < amt /\
+    other_token (ep_dec_in ep) amt (ep_dec_out ep) = Some tout /\ 0 < tout /\
+    pmint s a e + tout < ep_ceiling ep /\
+    ddf_fee ep tout = feeq tout (ep_ddf ep) /\
+    effect c s s' f (SUpd x0 (mkSV (sv_id x0) (sv_app x0) (sv_pair x0) (sv_in x0 + amt) (sv_out x0 + tout))) (feeq tout (ep_ddf ep)).
+Proof.
+  intros [_ CK] PE H. unfold msg_stable_deposit in H. cbv zeta in H.
+  do 9 exec1 H.
+  pose proof (prods_exist_sv _ _ _ PE M0) as Hpf.
+  do 3 exec1 H. bool_norm.
+  pose proof (get_ep_id _ _ _ M) as Hid. pose proof (find_sv_id _ _ _ M0) as Hxid.
+  replace (sv_app s0) with a in Hpf by congruence. replace (sv_pair s0) with e in Hpf by congruence.
+  rewrite ensure_prod_found in H by exact Hpf.
+  exec_checks H.
+  assert (Hamt : 0 < amt) by lia.
+  assert (G : (amt >? 0) = true) by lia.
+  exec1 H. rewrite G in E.
+  exec1 E. apply send_spec in E0. destruct E0 as (_ & b1 & -> & Hb1).
+  exec1 E. apply mint_spec in E. destruct E as (Hz0 & b2 & sp2 & -> & Hb2 & Hs2).
+  exec1 H.
+  destruct (CK _ (get_ep_in _ _ _ M)) as (Hddf & Hio & Hcl).
+  assert (Hz : 0 < z) by lia.
+  apply deliver_spec in E; [|lia|exact Hddf|exact G]. destruct E as (Hfs & b3 & -> & Hb3). ssimpl.
+  injection H as <-. bool_norm.
+  pose proof (denom_in_ep _ _ _ M) as Hdi. pose proof (denom_out_ep _ _ _ M) as Hdo.
+  replace e with (sv_pair s0) in Hdi, Hdo by congruence.
+  match goal with |- context [upd_coll ?st ?a0 ?p0 ?m ?ad] =>
+    destruct (upd_coll_spec st a0 p0 m ad Hpf) as (f1 & -> & Hf11 & Hf12 & Hf13 & Hf14) end.
+  match goal with |- context [upd_mint ?st ?a0 ?p0 ?m ?ad] =>
+    assert (Hpf2 : pfound st a0 p0 = true) by (prod_rw; rewrite <- pfound_f; exact Hpf);
+    destruct (upd_mint_spec st a0 p0 m ad Hpf2) as (f2 & -> & Hf21 & Hf22 & Hf23 & Hf24) end.
+  destruct (feeq_bounds z (ep_ddf e0) ltac:(lia) Hddf) as [Hfb _].
+  exists s0, e0, z. repeat (split; [first [reflexivity|congruence|lia]|]).
+  split. { unfold prod_mint in *. unfold pmint. destruct (prods s a e); lia. }
+  split. { apply ddf_fee_val. exact Hfs. }
+  constructor; ssimpl; bc_simpl; try reflexivity.
+  - repeat split; congruence.
+  - intros a' p'. prod_rw. rewrite andb_false_r, orb_false_r. reflexivity.
+  - intros a' p'. prod_rw. eqb_cases.
+  - intros a' p'. prod_rw. eqb_cases.
+  - intros a' p'. prod_rw. eqb_cases.
+  - lia.
+  - intros a' x. bal_rw. rewrite Hdi, Hdo. ledger.
+  - intros d. bal_rw. rewrite Hdo. ledger.
+  - repeat split; reflexivity.
+Qed.
